@@ -15,9 +15,9 @@ use crate::engine::{guarded, hex, show, unhex, Report, Sys, Tier, Violation};
 use crate::refmodel::head;
 use crate::refmodel::reqvalid::{self, ReqFacts};
 
-pub const RULE: &str = "flows = every state of the redirect-chain graph (original GET / POST with authorization, cookie, content-length, x-keep; statuses {302,307}; Locations {same host /q, other host http://b.test/q, same host https}; both policies; depth 0..3) x caller additions: all sequences of length 0..=3 (thorough 0..=4) over the pool {cookie: k=NEW1, cookie: k=NEW2, authorization: NEW, content-length: 0 (with send-body-despite-method), host: h.test, connection: close, x-a: 1, X-MiXeD: v} plus long sequences of n = 4..=60 additions cycling through the pool; restricted to requests the validity model accepts; head written under two buffer schedules and parsed back. distinct = distinct (flow state, addition sequence) pairs";
+pub const RULE: &str = "flows = every state of the redirect-chain graph (original GET / POST with authorization, cookie, content-length, x-keep; statuses {302,307}; Locations {same host /q, other host http://b.test/q, same host https}; both policies; depth 0..3) x caller additions: all sequences of length 0..=3 (thorough 0..=4) over the pool {cookie: k=NEW1, cookie: k=NEW2, authorization: NEW, content-length: 0 (with send-body-despite-method), host: h.test, connection: close, x-a: 1, X-MiXeD: v, cookie and authorization EQUAL to the inherited ones, a non-UTF-8 cookie value} plus long sequences of n = 4..=60 additions cycling through the pool; restricted to requests the validity model accepts; head written under two buffer schedules, parsed back and compared in full with the reference head (added in order, derived headers, unsuppressed originals). distinct = distinct (flow state, addition sequence) pairs";
 
-const POOL: [(&str, &str); 8] = [("cookie", "k=NEW1"), ("cookie", "k=NEW2"), ("authorization", "NEW"), ("content-length", "0"), ("host", "h.test"), ("connection", "close"), ("x-a", "1"), ("X-MiXeD", "v")];
+const POOL: [(&str, &[u8]); 11] = [("cookie", b"k=NEW1"), ("cookie", b"k=NEW2"), ("authorization", b"NEW"), ("content-length", b"0"), ("host", b"h.test"), ("connection", b"close"), ("x-a", b"1"), ("X-MiXeD", b"v"), ("cookie", b"k=ORIG"), ("authorization", b"S3CRET"), ("cookie", b"caf\xe9")];
 
 fn chain_cfgs() -> Vec<Arc<ChainCfg>> {
     let locs = vec![Loc::one("/q"), Loc::one("http://b.test/q"), Loc::one("https://a.test/s")];
@@ -130,37 +130,32 @@ fn check(st: &ChainSt, added: &[(String, Vec<u8>)]) -> (Option<(String, String)>
             Ok(h) => h,
             Err(e) => return Some(("C16:head-malformed".into(), e)),
         };
-        // every added pair, in order, before any original header
-        let mut next = 0;
-        let mut original_seen: Option<String> = None;
-        for (name, val) in &h.fields {
-            if next < added.len() && *name == added[next].0.to_ascii_lowercase() && *val == added[next].1 {
-                if let Some(o) = &original_seen {
-                    return Some(("C16:added-after-original".into(), format!("depth {}: added header {}: {} appears after the original header {}", st.hop, name, show(val), o)));
+        // the complete head must be exactly: request line, the added headers in order, derived Host /
+        // framing header, then the originals that are not suppressed (full reference comparison of C02;
+        // an added header that happens to equal an inherited one must still appear - exactly as often as added)
+        let comps = match crate::refmodel::uri3986::components(&st.cur) {
+            Ok(c) => c,
+            Err(e) => return Some(("C16:harness".into(), e)),
+        };
+        let path = if st.cur.path.is_empty() { "/".to_string() } else { st.cur.path.clone() };
+        let target = match &st.cur.query {
+            Some(q) => format!("{}?{}", path, q),
+            None => path,
+        };
+        let added_lc: Vec<(String, Vec<u8>)> = added.iter().map(|(k, v)| (k.to_ascii_lowercase(), v.clone())).collect();
+        let spec = crate::props::c02::spec_from(&st.method, "1.1", target, comps.host.clone(), added_lc.clone(), origs.clone(), despite, "flow");
+        if let Err((k, w)) = crate::props::c02::check_head_auth_optional(&a.bytes, &spec, st.hop > 0 && st.auth_may) {
+            let class = if k.contains("added-headers") {
+                let missing = added_lc.iter().find(|(n, v)| !h.fields.iter().any(|(hn, hv)| hn == n && hv == v));
+                match missing {
+                    Some((n, _)) if n == "cookie" || n == "authorization" || n == "content-length" => "added-header-missing:suppressed-name".to_string(),
+                    Some(_) => "added-header-missing:other-name".to_string(),
+                    None => "added-headers-order".to_string(),
                 }
-                next += 1;
-                continue;
-            }
-            if origs.iter().any(|(k, v)| k == name && v == val) {
-                original_seen = Some(name.clone());
-            }
-        }
-        if next < added.len() {
-            let (k, v) = &added[next];
-            let class = match k.to_ascii_lowercase().as_str() {
-                "cookie" | "authorization" | "content-length" => "suppressed-name",
-                _ => "other-name",
+            } else {
+                k.trim_start_matches("C02:").to_string()
             };
-            return Some((format!("C16:added-header-missing:{}", class), format!("redirect depth {}: the caller-added header {}: {} (addition #{} of {}) is not on the wire (or out of order); head: {:?}", st.hop, k, show(v), next + 1, added.len(), show(&a.bytes))));
-        }
-        // and the inherited same-named headers stay suppressed (C13's oracle on the same head)
-        if st.hop > 0 {
-            for (name, val) in &h.fields {
-                let v = String::from_utf8_lossy(val);
-                if (name == "cookie" && v.contains("ORIG")) || (name == "authorization" && v.contains("S3CRET") && !st.auth_may) || (name == "content-length" && v == "3") {
-                    return Some(("C16:inherited-header-leaked".into(), format!("depth {}: inherited {}: {} present", st.hop, name, v)));
-                }
-            }
+            return Some((format!("C16:{}", class), format!("redirect depth {}: added {:?}: {} ; head: {:?}", st.hop, added.iter().map(|(k, v)| format!("{}: {}", k, show(v))).collect::<Vec<_>>(), w, show(&a.bytes))));
         }
         None
     });
@@ -189,7 +184,7 @@ pub fn run(tier: Tier) -> Report {
                 let mut rep = Report::new();
                 let _g = crate::engine::watch(|| format!("C16 state {} depth {}", si, st.hop));
                 for (qi, s) in seqs.iter().enumerate() {
-                    let added: Vec<(String, Vec<u8>)> = s.iter().map(|i| (POOL[*i].0.to_string(), POOL[*i].1.as_bytes().to_vec())).collect();
+                    let added: Vec<(String, Vec<u8>)> = s.iter().map(|i| (POOL[*i].0.to_string(), POOL[*i].1.to_vec())).collect();
                     let (fail, ran) = check(st, &added);
                     if !ran {
                         rep.add_extra_count("skipped_invalid", 1);
